@@ -15,7 +15,7 @@ import (
 var c19Keys = []string{"a", "a.b", "a.0", "b", "l"}
 
 // value texts covering every syntax of parse.Value, empty value, malformed values
-var c19Vals = []string{"1", "-2", "1.5", "true", "str", "'q s'", `"d q"`, "[1,2]", "[3]", "{k: v}", "{k: {n: 1}}", "x,y", "null", "", "[1", "{a"}
+var c19Vals = []string{"1", "-2", "1.5", "true", "str", "'q s'", `"d q"`, "[1,2]", "[3]", "{k: v}", "{k: {n: 1}}", "x,y", "null", "", "[1", "{a", "u=v", "'q=s'"}
 
 // H_C19_flags: the config produced after a sequence of Set calls equals NewFrom(setting, opts)
 // + Merge(.., opts) in order; first error is sticky; empty value ignored; bare key means true.
@@ -88,10 +88,26 @@ func H_C19_flags() {
 	}
 	verif.Reach("flag sequence compared")
 	verif.Assert((fv.Error() != nil) == (refErr != nil), "C19/collector keeps reporting the first error")
+	if fv.Error() != nil && refErr != nil {
+		verif.Assert(c19SameError(fv.Error(), refErr), "C19/the error the collector reports is the FIRST failing argument's error")
+	}
 	if refErr != nil {
 		verif.Reach("sticky error")
 	}
 	got, err := unpackTree(fv.Config(), opts...)
 	want, err2 := unpackTree(ref, opts...)
 	verif.Assert(err == nil && err2 == nil && verif.Eq(got, want), "C19/flag config equals sequential merges with the flag's options")
+}
+
+// c19SameError: same failure (ucfg errors by reason and path, others by text).
+func c19SameError(a, b error) bool {
+	ua, oka := a.(ucfg.Error)
+	ub, okb := b.(ucfg.Error)
+	if oka != okb {
+		return false
+	}
+	if oka {
+		return innermostReason(ua) == innermostReason(ub) && ua.Path() == ub.Path()
+	}
+	return a.Error() == b.Error()
 }
